@@ -6,6 +6,16 @@ out=${1:-/tmp/seeded_all.log}
 for d in seeded/*/; do
   m=$(basename $d); id=${m%%_*}
   r=$(tools/try_mutant.sh $id /verif/$d/patch.diff quick 2>&1 | grep -E "^VIOLATION|exit=" | tr '\n' ' ' | cut -c1-160)
-  echo "$m: $r" >> "$out"
+  k=$(python3 -c "
+import json,sys
+try:
+    r=json.load(open('/verif/replays/${id}_quick_0.json'))
+    ks=[]
+    for f in r.get('failures',[]):
+        if f.get('key') not in ks: ks.append(f.get('key'))
+    print('kind=%s keys=%s broken=%s disagreements=%d' % (r.get('kind'), ','.join(map(str,ks[:6])), ','.join(str(b)[:40] for b in r.get('broken',[])[:4]), len(r.get('disagreements',[]))))
+except Exception as e: print('no replay', e)
+" 2>&1 | cut -c1-400)
+  echo "$m: $r | $k" >> "$out"
 done
 echo done >> "$out"
